@@ -94,6 +94,20 @@ def rules():
               (fn('const int K = 5; int b = %s;' % op), True), (fn('const int K = 5; byte b = (%s) is byte;' % op), True)]
     R += [(fn('byte b = 2 + 3;'), True), (fn('const byte C = 5; byte b = C + 1;'), True), (fn('const byte C = 5; byte b = -C + 9;'), True),
           (fn('const int K = 5; g(K + K);', pre='empty g(byte x) { } empty g(string s) { }'), False)]
+    # a const array may not be bound to mutable storage, however the initialiser is written: bare, under an explicit cast to its own
+    # type, in parentheses, through a call result; mutable local / VLA / parameter / global, local and global declarations
+    for el, lit in (('int', '[1, 2]'), ('byte', '[1, 2]'), ('bool', '[true, false]'), ('string', '["a", "b"]')):
+        for form in ('m', 'm is %s[]' % el, '(m)', '(m is %s[])' % el, '(m is %s[]) is %s[]' % (el, el)):
+            R += [(fn('%s[] m = %s; const %s[] c = %s;' % (el, lit, el, form)), False),
+                  (fn('int n = 2; %s m[n]; const %s[] c = %s;' % (el, el, form)), False),
+                  (fn('const %s[] c = %s;' % (el, form), sig='%s[] m' % el), False),
+                  (fn('const %s[] c = %s;' % (el, form), pre='%s[] m = %s;' % (el, lit)), False),
+                  ('%s[] m = %s;\nconst %s[] c = %s;\nempty @is_you() { }' % (el, lit, el, form), False),
+                  (fn('%s[] m = %s; %s[] c = %s;' % (el, lit, el, form)), True),
+                  (fn('const %s[] k = %s; const %s[] c = %s;' % (el, lit, el, form.replace('m', 'k'))), True),
+                  (fn('g(%s);' % form, pre='empty g(const %s[] a) { }' % el, sig='%s[] m' % el), True)]
+        R += [(fn('const %s[] c = %s is %s[];' % (el, lit, el)), True)]
+    R += [(fn('string s = "ab"; const byte[] c = s is byte[];'), True), (fn('const byte[] c = "ab" is byte[];'), True)]
     # folds the generators did not reach (found by measuring branch coverage of hidc under all checks)
     R += [(fn('byte b = true is byte; byte c = false is byte; int i = (true is byte) + 1; write(b is int); write(i);'), True),
           ('empty @is_you() { int a = 1 ?? 2; const int K = 3; int b = K ?? 4; bool t = true ?? false; byte y = \'a\' ?? \'b\'; write(a + b); write(t); write(y); }', True),
